@@ -447,7 +447,7 @@ def main(rep, tier, only):
         ok = False
         why = "names is not array_init over the enum"
         if len(ai) == 1:
-            lam = T.unwrap(u, ai[0]["args"][0])
+            lam = T.resolve_lambda(u, fn, ai[0]["args"][0])     # the lambda itself or the named local that holds it
             ops = lam.get("ops", []) if lam is not None and lam.get("k") == "lambda" else []
             size = None
             for uu in db.units:
